@@ -248,9 +248,15 @@ def writeOnes : Nat → M Unit
   | 0 => pure ()
   | n + 1 => do writeBit true; writeOnes n
 
-/-- `WriteUnary(n uint)`: `n < 63` ⇒ `WriteUint(1<<n − 1, n)`; otherwise `for i := 0; i < int(n); i++ { WriteBit(true) }` —
-for `n ≥ 2^63` the conversion `int(n)` is negative and the loop body never runs; then `WriteBit(false)` -/
+/-- `WriteUnary(n uint)`: `n < 63` ⇒ `WriteUint(1<<n − 1, n)`; otherwise `for i := uint(0); i < n; i++ { WriteBit(true) }`
+(repaired: the loop counter is a `uint`; before, `i < int(n)` made a count ≥ 2^63 write no one at all and succeed);
+then `WriteBit(false)` -/
 def writeUnary (n : Nat) : M Unit := do
+  if n < 63 then writeUint (2 ^ n - 1) n else writeOnes n
+  writeBit false
+
+/-- `WriteUnary` before the repair (`int(n)` negative for n ≥ 2^63: the loop body never runs) -/
+def writeUnaryOld (n : Nat) : M Unit := do
   if n < 63 then writeUint (2 ^ n - 1) n else writeOnes (if n ≥ 2 ^ 63 then 0 else n)
   writeBit false
 
